@@ -28,7 +28,7 @@ LEVEL = "model_checking"
 SPEC = "ClawAst.tla"
 INVS = ["TypeOK", "ScopesFaithful", "WalkSubRule", "WalkEqRule", "DecoratedOnce", "ChecksWellPlaced",
         "LinePreserved", "ImportPlaced", "DecoIndexOK", "EvalOnce", "ScopeBalanced"]
-LEGACY = ["async_no_scope", "copy_subexprs"]
+LEGACY = ["copy_subexprs"]      # deviations still present in the tree under test (async_no_scope was repaired by fix b2890cb)
 # spec mutant -> (slice, MaxNodes, MaxDepth)
 MUTANTS = {"no_pop_nested_class": ("scope", 4, 4), "class_body_checked": ("scope", 3, 3),
            "import_before_future": ("prefix", 3, 2), "method_decorated": ("scope", 3, 3),
